@@ -20,6 +20,7 @@ from mpsa.flow import (
     definitely_assigned,
     fmt_path,
     path_avoiding,
+    reachable,
     reaching_defs,
 )
 from mpsa.loader import AnchorError, FuncInfo, Repo, dotted, norm_text
@@ -453,6 +454,27 @@ def check_consumer_pairing(ck: Checker, rid: str, m: Fifo, producer_tuple_len=2)
                         continue
             problems.append(f'`{yname}` may come from L{dn.lineno} `{norm_text(st)[:50]}`, which is neither `{fn}.result()`/`await {fn}` nor the exception caught from it')
         ck.ob(rid, m.outer, yn.ast, not problems, '; '.join(problems) if problems else f'`{yname}` is `{fn}`\'s outcome (or the exception caught from that call); `{xn}` and `{fn}` come from this iteration\'s dequeue')
+    # (e) what the worker *returned* is a value, whatever its type: inside the consumer loop an exception is raised only
+    #     as the re-raise of what `fut.result()` / `await fut` raised (inside that handler), or as the feeder's forwarded
+    #     exception (`raise z`) -- never by looking at the outcome (`if isinstance(y, Exception): raise y` would abort
+    #     the stream on a function that returns exception objects, where map() yields them)
+    handler_nodes = set()
+    for h in cfg.nodes:
+        if h.kind == 'except' and loop.id in h.loops and h.pending is None and any(e.kind == 'exc' and _awaits(cfg.nodes[e.src], fn) for e in cfg.pred[h.id]):
+            handler_nodes |= {k for k in reachable(cfg, [h.id], edge_ok=lambda e: not e.is_exc) if loop.id in cfg.nodes[k].loops}
+    bad_raises = []
+    for n in cfg.nodes:
+        if loop.id in n.loops and n.pending is None and n.kind == 'stmt' and isinstance(n.ast, ast.Raise):
+            if n.ast.exc is None:
+                if n.id not in handler_nodes:
+                    bad_raises.append(n)
+            elif is_name(n.ast.exc, zname):
+                continue
+            elif n.id in handler_nodes and isinstance(n.ast.exc, ast.Name) and any(h.kind == 'except' and h.ast.name == n.ast.exc.id for h in cfg.nodes):
+                continue
+            else:
+                bad_raises.append(n)
+    ck.ob(rid, m.outer, (loop.lineno, 'raises in the consumer loop'), not bad_raises, 'the consumer raises only what the future\'s result() raised (re-raise in its handler) or the feeder\'s forwarded exception' if not bad_raises else f'L{bad_raises[0].lineno}: `{norm_text(bad_raises[0].ast)}` raises by looking at the outcome value: a worker that *returns* an exception object (errors as values, exception objects passed through) aborts the stream at that element, where the sequential map yields the object')
     # (d) the loop ends normally only on the end marker
     check_loop_ends_on_marker(ck, rid, m.outer, cfg, loop, zname)
     # (c) one yield per dequeue
